@@ -617,7 +617,14 @@ class BusAuthenticator :
             return
 
         if response:
-            response = binascii.unhexlify(response.strip()).decode('ascii')
+            try:
+                response = binascii.unhexlify(
+                    response.strip()).decode('ascii')
+            except ValueError:
+                # Not hexadecimal, or not the encoding of ASCII text: no
+                # mechanism can accept it
+                self.reject()
+                return
 
         status, challenge = self.current_mech.step(response)
 
